@@ -230,7 +230,7 @@ def _canon(v, reps):
     return out
 
 
-def body_passthrough_events(tagk: int, av: str, d: str, d2: str) -> bool:
+def body_passthrough_events(tagk: int, av: str, d: str, d2: str, noval: bool = False) -> bool:
     """Static markup re-serialised from parser events, with symbolic attribute value and text:
     <div><TAG title=AV>D</TAG>D2</div>.  The real compiler's event handlers are driven in the order
     and with the state (cdata mode for script/style) the HTML parser produces them -- the parser
@@ -245,7 +245,7 @@ def body_passthrough_events(tagk: int, av: str, d: str, d2: str) -> bool:
         c.log = T.NullLog()
         c.minimizeBooleanAtts = False
         c.handle_starttag("div", [])
-        c.handle_starttag(tag, [("title", av)])
+        c.handle_starttag(tag, [("title", None if noval else av)])  # noval: the attribute is written without a value (<p title>): its value is the empty string
         if tag in c.CDATA_CONTENT_ELEMENTS:
             c.set_cdata_mode(tag)
         if tag != "br":
@@ -265,6 +265,8 @@ def body_passthrough_events(tagk: int, av: str, d: str, d2: str) -> bool:
         t.expandInline(ctx, w, it)
         return w.value()
 
+    if noval:
+        av = ""
     out = compile_and_expand(av, d, d2)
     hx.reach()
     head = "<div><" + tag + ' title="'
@@ -411,8 +413,8 @@ def obligations(tier, seed):
         for part, pre in (("attr", ["len(av) <= %d" % L, "len(d) == 0", "len(d2) == 0"]), ("text", ["len(av) == 0", "len(d) <= %d" % L, "len(d2) <= 1"])):
             if tg == "br" and part == "text":
                 pre = ["len(av) == 0", "len(d) == 0", "len(d2) <= %d" % L]
-            obs.append(Ob(id="C18.3b-passthrough-events[%s,%s]" % (tg, part), body="harness.C18:body_passthrough_events", sig="tagk: int, av: str, d: str, d2: str",
-                          pre=["tagk == %d" % tk] + pre + ["all(c in '&<>;a' + chr(34) + chr(39) for c in av + d + d2)"],
+            obs.append(Ob(id="C18.3b-passthrough-events[%s,%s]" % (tg, part), body="harness.C18:body_passthrough_events", sig="tagk: int, av: str, d: str, d2: str, noval: bool",
+                          pre=["tagk == %d" % tk] + (["noval == False"] if part == "text" else []) + pre + ["all(c in '&<>;a' + chr(34) + chr(39) for c in av + d + d2)"],
                           timeout=400 if tier == "quick" else 1800,
                           desc="TAL-free <div><%s title=AV>D</%s>D2</div> with symbolic %s, through the real compiler event handlers and the real interpreter: the output reads back (independent HTML reading) as the same element, attribute value and text%s" % (tg, tg, "attribute value" if part == "attr" else "text", "; script/style content is raw text and a second expansion is the identity" if tg in RAWTEXT else ""),
                           bounds="|%s| <= %d%s over {& < > ; a \" '}" % ("AV" if part == "attr" else "D", L, "" if part == "attr" else ", |D2| <= 1"),
